@@ -63,13 +63,23 @@ where
 
 // A frame whose Recon BODY is corrupt (its header and length field are intact) followed by a good frame: whatever the cuts,
 // the corrupt frame is reported as ONE error and the good frame is then decoded exactly (the stream is not desynchronised).
+// VERIF_BX_FILTER=a,b: only the codec pairs whose name contains one of the given substrings, fragmentation obligations only
+// (used where this harness serves as the concrete-witness finder next to a Verus unit of another property)
+fn filtered_out(name: &str) -> bool {
+    match std::env::var("VERIF_BX_FILTER") {
+        Ok(f) if !f.is_empty() => !f.split(',').any(|p| name.contains(p)),
+        _ => false,
+    }
+}
+fn filter_active() -> bool { std::env::var("VERIF_BX_FILTER").map(|f| !f.is_empty()).unwrap_or(false) }
+
 fn check_resync<D>(name: &str, corrupt: &[u8], good: &[u8], mk: &dyn Fn() -> D, rep: &mut Report)
 where
     D: Decoder,
     D::Item: Debug,
     D::Error: Debug,
 {
-    if rep.mode != Mode::Fragmentation {
+    if rep.mode != Mode::Fragmentation || filtered_out(name) {
         return;
     }
     let mut stream = corrupt.to_vec();
@@ -152,6 +162,9 @@ where
     D::Error: Debug,
     F: Fn(D::Item, &mut BytesMut) -> bool,
 {
+    if filtered_out(name) {
+        return;
+    }
     if !rep.codecs.iter().any(|c| c == name) {
         rep.codecs.push(name.to_string());
     }
@@ -448,7 +461,7 @@ fn codec_contract() {
     let mut aborts: Vec<String> = vec![];
     let mut robust_evals = 0usize;
     // (each abort costs a child process; after 60 of them the remaining corrupt variants are not run -- BOUNDED)
-    for _round in 0..60 {
+    for _round in 0..(if filter_active() { 0 } else { 60 }) {
         let _ = std::fs::remove_file(&progress);
         let st = std::process::Command::new(std::env::current_exe().unwrap())
             .args(["codec_robustness_child", "--nocapture", "--test-threads", "1"])
@@ -490,6 +503,7 @@ fn codec_contract() {
                 failed = true;
             }
         }
+        if filter_active() { continue; }
         match rep.robust_fail.get(c) {
             None => println!("BX-OBL codecs::{}::corrupt_input_gives_error_not_panic_or_hang ok evaluations={} distinct={}", slug(c), robust_evals / rep.codecs.len(), robust_evals / rep.codecs.len()),
             Some(w) => {
@@ -507,12 +521,12 @@ fn codec_contract() {
             }
         }
     }
-    match aborts.first() {
+    if !filter_active() { match aborts.first() {
         None => println!("BX-OBL codecs::corrupt_input_does_not_abort_the_process ok evaluations={} distinct={}", robust_evals, robust_evals),
         Some(w) => {
             println!("BX-FAIL codecs::corrupt_input_does_not_abort_the_process witness={} corrupt streams abort the process, first: {w}", aborts.len());
             failed = true;
         }
-    }
+    } }
     assert!(!failed, "contract violated");
 }
